@@ -104,6 +104,23 @@ def exhaustive_one(ctx, o):
         else:
             if set(res) != {"VE"}:
                 ctx.fail("invalid-orientation-accepted", "orientation %r: %r" % (o, res))
+            # ... whatever the image shape (1 x 1 included) and the direction
+            for nx in (1, 2, 3):
+                for ny in (1, 2, 3):
+                    im = np.arange(nx * ny).reshape(nx, ny)
+                    for fn in (D.trans_orientation, D.image_flipping):
+                        for fd in ("forward", "inverse"):
+                            try:
+                                fn(im, *o, fd)
+                                ctx.fail("invalid-orientation-accepted", "%s accepted orientation %r for a %dx%d image (%s)" % (fn.__name__, o, nx, ny, fd))
+                            except ValueError:
+                                pass
+                    for fn in (D.xy_to_detyz, D.detyz_to_xy):
+                        try:
+                            fn([0, 0], *o, ny, nx)
+                            ctx.fail("invalid-orientation-accepted", "%s accepted orientation %r for detector %dx%d" % (fn.__name__, o, nx, ny))
+                        except ValueError:
+                            pass
             continue
         for nx in range(1, 9):
             for ny in range(1, 9):
